@@ -24,6 +24,7 @@ type Scope struct {
 	loop  *Loop
 	pkg   *ssa.Package
 	depth int
+	freshBound int
 }
 
 func (s *Scope) with(st *State) *Scope {
@@ -640,7 +641,15 @@ func (s *Scope) evalCall(e *Expr) *Val {
 		if a.K == KSlice {
 			r = a.Base
 		}
-		return scalar(ILe(IntLitI(birthBase), RefRoot(r)), boolT)
+		bound := int64(birthBase)
+		if s.freshBound > 0 {
+			bound = int64(s.freshBound) // at a call site: allocated by this very call
+		}
+		t := ILe(IntLitI(bound), RefRoot(r))
+		if s.freshBound > 0 {
+			t = And(t, ILt(RefRoot(r), IntLitI(int64(s.freshBound+256))))
+		}
+		return scalar(t, boolT)
 	case "typeis":
 		// typeis(x, "pkg.T") : dynamic type of interface value
 		a := argv(0)
